@@ -135,6 +135,9 @@ func goValueFor(r *gen.Rng, s *ast.Schema, t *ast.Type, depth int) interface{} {
 		return out
 	}
 	def := s.Types[t.NamedType]
+	if def == nil {
+		return nil
+	}
 	switch def.Kind {
 	case ast.Enum:
 		return gen.Pick(r, def.EnumValues).Name
